@@ -59,6 +59,17 @@ Proof.
 Qed.
 Print Assumptions C07_state_dir_hidden.
 
+(* The state file reports the layer as it is at the time of the Read: whatever the node's history, and whatever an earlier
+   Lookup / Getattr / Read of the file saw, a Read answers from the CURRENT size, fetched size and error state it is handed
+   (the environment: the harness hands the real blob's FetchedSize and the errors reported so far) — the model keeps no
+   copy of the file anywhere in the node state. *)
+Theorem C07_state_file_reports_current_values :
+  forall c self ch os dg size fetched he, c_root c = true ->
+    snd (step c self ch (exec c self ch os) (OStatRead dg size fetched he)) = ([size; fetched; (if he then 1 else 0)], [dg])
+    /\ fst (step c self ch (exec c self ch os) (OStatRead dg size fetched he)) = exec c self ch os.
+Proof. intros c self ch os dg size fetched he R. simpl. rewrite R. split; reflexivity. Qed.
+Print Assumptions C07_state_file_reports_current_values.
+
 (* Whiteout shape: a marker .wh.X (X a servable name) with no real X beside it is served, by Lookup and in the listing, as a
    character device 0/0 owned by root, empty, one link, under the inode of the marker; with a real X beside it the real entry
    wins in both. *)
